@@ -19,22 +19,22 @@ import (
 type Kind int
 
 const (
-	KConst Kind = iota
-	KParam      // parameter (or free variable) of the root function of the binding context
-	KGlobal     // load of a package-level variable
-	KField      // X.field
-	KElem       // X[i]  (slice/array element)
-	KConv       // numeric conversion to Type
-	KBin        // X op Y
-	KUn         // op X
-	KCall       // result #Index of Callee(Args)
-	KLookup     // X[key] (map), Index 0 = value, 1 = ok
-	KRangeKey   // key / index of a range over X
-	KRangeVal   // value of a range over X
-	KLen        // len(X)
-	KAlloc      // address of a fresh allocation (identity = the alloc instruction + context)
-	KPhi        // join of several origins
-	KMakeSlice  // make([]T, len)
+	KConst     Kind = iota
+	KParam          // parameter (or free variable) of the root function of the binding context
+	KGlobal         // load of a package-level variable
+	KField          // X.field
+	KElem           // X[i]  (slice/array element)
+	KConv           // numeric conversion to Type
+	KBin            // X op Y
+	KUn             // op X
+	KCall           // result #Index of Callee(Args)
+	KLookup         // X[key] (map), Index 0 = value, 1 = ok
+	KRangeKey       // key / index of a range over X
+	KRangeVal       // value of a range over X
+	KLen            // len(X)
+	KAlloc          // address of a fresh allocation (identity = the alloc instruction + context)
+	KPhi            // join of several origins
+	KMakeSlice      // make([]T, len)
 	KNil
 	KUnknown
 )
@@ -43,18 +43,18 @@ const (
 type O struct {
 	Kind   Kind
 	Type   types.Type
-	Const  constant.Value  // KConst
-	Param  *ssa.Parameter  // KParam
-	FV     *ssa.FreeVar    // KParam (free variable)
-	Global *ssa.Global     // KGlobal
-	Field  *types.Var      // KField
-	Op     token.Token     // KBin, KUn
-	Callee *ssa.Function   // KCall (nil for dynamic / builtin)
-	Name   string          // KCall: display name; KUnknown: reason
-	Index  int             // KCall result index, KLookup component
-	Args   []*O            // operands: KField/KElem/KConv/KUn: [X]; KElem: [X, idx]; KBin: [X,Y]; KCall: args; KPhi: alternatives
-	Val    ssa.Value       // the SSA value this node was built from (identity for KAlloc/KUnknown/KRange*)
-	Ctx    string          // context id for KAlloc / loop-instance identity
+	Const  constant.Value // KConst
+	Param  *ssa.Parameter // KParam
+	FV     *ssa.FreeVar   // KParam (free variable)
+	Global *ssa.Global    // KGlobal
+	Field  *types.Var     // KField
+	Op     token.Token    // KBin, KUn
+	Callee *ssa.Function  // KCall (nil for dynamic / builtin)
+	Name   string         // KCall: display name; KUnknown: reason
+	Index  int            // KCall result index, KLookup component
+	Args   []*O           // operands: KField/KElem/KConv/KUn: [X]; KElem: [X, idx]; KBin: [X,Y]; KCall: args; KPhi: alternatives
+	Val    ssa.Value      // the SSA value this node was built from (identity for KAlloc/KUnknown/KRange*)
+	Ctx    string         // context id for KAlloc / loop-instance identity
 }
 
 func (o *O) String() string {
